@@ -70,6 +70,8 @@ def order_rule(ctx, rid):
                 rr.ok("%s: a given `%s` replaces the crop's, an omitted one leaves it" % (name, par_))
             elif (sn, sg) == (True, False):
                 rr.bad(ctx.finding(rid, f, f.node, "%s stores `%s` on the crop when it is omitted (None) and ignores it when it is given: the requested batch size / count / shuffle is not honoured" % (name, par_), construct="override-polarity %s %s" % (name, par_)), "%s %s override" % (name, par_))
+            elif (sn, sg) == (False, False) and any(isinstance(a_, ast.Name) and a_.id == par_ for _, c_, _nm in all_calls(ctx, f, g) for a_ in list(c_.args) + [k.value for k in c_.keywords]):
+                raise AnalysisError("idiom changed: %s hands `%s` to a helper in which the store on the crop is not recognised" % (name, par_))
             elif (sn, sg) == (False, False):
                 rr.bad(ctx.finding(rid, f, f.node, "%s never applies a given `%s` to the crop" % (name, par_), construct="override-missing %s %s" % (name, par_)), "%s %s override" % (name, par_))
             else:
